@@ -283,8 +283,8 @@ theorem C03_http_unary_metadata (ops : List HOp) (ret : Ret) (ctxDone : Bool) :
   simp only [List.nil_append] at h
   unfold serve client
   cases ret with
-  | err e => simpa using h
-  | resp m enc => cases enc <;> simpa using h
+  | err e => simpa [Gen.unaryClientMetadataBeforeStatus] using h
+  | resp m enc => cases enc <;> simpa [Gen.unaryClientMetadataBeforeStatus] using h
 
 /-- SetHeader / SendHeader after SendHeader fail and change nothing -/
 theorem C03_http_unary_set_header_after_send_fails (s : Sts) (md : Nat) (h : s.hdrsSent = true) :
@@ -293,5 +293,14 @@ theorem C03_http_unary_set_header_after_send_fails (s : Sts) (md : Nat) (h : s.h
 
 example : client (serve [.setHeader 1, .sendHeader 2, .setHeader 3, .setTrailer 4] (.err (.status 5)) false).1 =
     { result := .status 5, hdr := [1, 2], tlr := [4] } := by decide
+
+end HttpUnary
+
+namespace HttpUnary
+
+/-- regenerated from the source: `handleMethod` writes headers and trailers before it looks at the
+    handler's error, and `Channel.Invoke` copies them to the call options before it looks at the status -/
+theorem C03_http_unary_order_facts :
+    Gen.unaryMetadataBeforeOutcome = true ∧ Gen.unaryClientMetadataBeforeStatus = true := by decide
 
 end HttpUnary
